@@ -163,7 +163,7 @@ def run_shard(params, rec):
                             # target in this shard are only counted
                             rec.count("disagreements_not_reduced:%s" % t)
                         else:
-                            report(R, rec, rng, build, guest, t, o, bk, f, bad, chunk_id)
+                            report(R, rec, rng, build, guest, t, o, bk, f, bad, chunk_id, ef)
         del host
     for (t, bk), g in guests.items():
         pass
@@ -214,7 +214,7 @@ def describe(got, want):
     return "; ".join(parts[:4])
 
 
-def report(R, rec, rng, build, guest, t, o, bk, f, bad, chunk_id):
+def report(R, rec, rng, build, guest, t, o, bk, f, bad, chunk_id, ef):
     """reduce the disagreeing function and record the failure"""
     inp, want, got = bad
     a, b, c, mem = inp
@@ -223,7 +223,7 @@ def report(R, rec, rng, build, guest, t, o, bk, f, bad, chunk_id):
         got["outcome"].split(":", 1)[1]
     g = guest(t, bk)
     tries = 0
-    last = dict(got=got, want=want, code=None)
+    last = dict(got=got, want=want, code=ef["code"])
     # values of every statement variable on the failing input (host execution of a traced copy):
     # a disabled statement is replaced by its value, so that only the operations whose *code*
     # matters remain after reduction
